@@ -58,6 +58,13 @@ def main(tier):
             conns[k] = (inside[k][0], inside[k][1], 15, c[3], c[4], 15)
         s['conns'] = conns
         scenes.append(s)
+    # direction-restricted free endpoints (orthogonal mode): the masks turn with the scene
+    for _ in range(80 if quick else 2500):
+        s = c03.random_scene(rnd, 1)
+        s['opts'] &= ~1
+        masks = [1, 2, 4, 8, 3, 12, 5, 10, 15]
+        s['conns'] = [(c[0], c[1], rnd.choice(masks), c[3], c[4], rnd.choice([15, 15] + masks)) for c in s['conns']]
+        scenes.append(s)
     sf = os.path.join(d, 'scenes.txt')
     RC.write_scenes(sf, scenes)
     of = os.path.join(d, 'frame.json')
@@ -106,7 +113,7 @@ def main(tier):
             else:
                 brief = {k: v for k, v in x.items() if k not in ('A', 'B')}
             key = '%s:%s' % (x['kind'], name)
-            if not isinstance(t, str) and t[0].endswith(':an-end-lies-on-a-shape-boundary'):
+            if not isinstance(t, str) and t[0].endswith((':an-end-lies-on-a-shape-boundary', ':direction-restricted-end')):
                 key = 'route:' + t[0]                      # one class whatever the symmetry
             vd.violation(key, '%s: %s' % (name, json.dumps(brief)[:700]), brief)
     ev.cov['evaluations'] = len(recs)
